@@ -299,8 +299,56 @@ def run_one(index, seed, runner, tier, opts):
                 v["signature"] += ":after-predecessor"
                 v["detail"] += " (after a valid non-matching rule had been loaded from the same path in the same process)"
                 violations.append({"case": case, "violation": v})
+    # ---- faults that destroy the input (so that any 'not found' is an unscanned input, whatever the
+    #      fault-free run says), under a file name that is not valid UTF-8: objdump echoes the name, and the
+    #      decoding of its output is one more place where an error can be turned into an empty listing
+    if info["type"] == "binary":
+        inp = info["input_file"]
+        xname = EXOTIC_BIN
+        xfiles = {k: v for k, v in files.items() if k != inp}
+        xfiles[xname] = files[inp]
+        xop = _rename_input(op, inp, xname)
+        data = util.dec_content(files[inp])
+        for f in ({"kind": "replace", "target": xname, "content": "this is not an object file\n", "label": "not_elf:binary"},
+                  {"kind": "replace", "target": xname, "content": "", "label": "empty_file:binary"},
+                  {"kind": "replace", "target": xname, "content": {"b64": _b64(data[:rng.randrange(8, 64)])}, "label": "truncated_elf:binary"},
+                  {"kind": "mkdir_in_place", "target": xname, "label": "eisdir:binary"},
+                  {"kind": "remove", "target": xname, "label": "enoent:binary"}):
+            fop = copy.deepcopy(xop)
+            fop["faults"] = [f]
+            runner.reset(xfiles)
+            res = runner.run([fop], seed)
+            evals += 1
+            vtime += res["vtime"]
+            digests.append(util.digest(res["events"]))
+            counters["non_utf8_name"] = counters.get("non_utf8_name", 0) + 1
+            oc = res["outcomes"][0]
+            cls = classify(oc)
+            distinct.add(f"{f['label']}|{wclass}|{cls}|non-utf8-name")
+            if cls == "silent":
+                counters["outcome"]["silent"] += 1
+                case = {"files": {k: util.enc_content(v) for k, v in xfiles.items()}, "ops": [fop],
+                        "extra": {"info": info, "no_yaml_shrink": False, "no_control": True}}
+                v = _violation(f, fop, oc, info)
+                v["signature"] += ":non-utf8-name"
+                v["detail"] += " (input file name is not valid UTF-8; the fault makes the input unscannable, so no control run is needed)"
+                violations.append({"case": case, "violation": v})
+        runner.reset(files)
     return {"evals": evals, "counters": counters, "distinct": sorted(distinct), "violations": violations, "digest": util.digest(digests),
             "sample": sample, "vtime": vtime, "warnings": warnings}
+
+
+EXOTIC_BIN = "caf\udce9 latin1.o"
+
+
+def _rename_input(op, old, new):
+    op = copy.deepcopy(op)
+    op.pop("faults", None)
+    if op["op"] == "match":
+        op["input"] = new
+    else:
+        op["argv"] = [new if a == old else a for a in op["argv"]]
+    return op
 
 
 PREDECESSOR_FAULTS = {"quick": 10, "thorough": 16}
@@ -341,11 +389,13 @@ def evaluate(case, runner):
     for op in case["ops"][:-1]:
         if op["op"] == "write":
             runner.apply_write(op)
-    ctl = copy.deepcopy(fop)
-    ctl["faults"] = []
-    res = runner.run([ctl], 0)
-    if not is_found(res["outcomes"][-1]):
-        return []
+    no_control = bool((case.get("extra") or {}).get("no_control"))
+    if not no_control:
+        ctl = copy.deepcopy(fop)
+        ctl["faults"] = []
+        res = runner.run([ctl], 0)
+        if not is_found(res["outcomes"][-1]):
+            return []
     runner.materialise(files)
     res = runner.run(case["ops"], 0)
     oc = res["outcomes"][-1]
@@ -354,7 +404,7 @@ def evaluate(case, runner):
     if classify(oc) != "silent":
         return []
     out = []
-    suffix = ":after-predecessor" if len(case["ops"]) > 1 else ""
+    suffix = ":after-predecessor" if len(case["ops"]) > 1 else (":non-utf8-name" if no_control else "")
     for idx in res["fired"][-1]:
         f = fop["faults"][idx]
         v = _violation(f, fop, oc, (case.get("extra") or {}).get("info") or {"entry": fop["op"], "type": fop.get("type", "?")})
